@@ -1,7 +1,9 @@
 package server
 
 import (
+	"bytes"
 	"context"
+	"encoding/binary"
 	"time"
 
 	"github.com/nats-io/nats.go"
@@ -91,39 +93,35 @@ func vLogAt(l commitlog.CommitLog, off int64) ([]byte, uint64, bool) {
 	return append([]byte{}, m.Value()...), ep, true
 }
 
-// vFetch: one replication round trip of follower f from leader l (mirror of
-// replicator.start/replicate and partition.handleReplicationResponse): up to
-// 'max' messages after the follower's newest offset, then the leader's HW.
-func vFetch(l, f *vRep, max int) {
+// vFetch: one replication response of leader l for follower f, built in the
+// real wire format (envelope header, leader epoch, HW, up to 'max' messages
+// after the follower's newest offset as ONE message set, as
+// replicator.replicate batches them) and handed to the follower's real
+// handleReplicationResponse.
+func vFetch(l, f *vRep, max int) int {
+	var out bytes.Buffer
+	proto.WriteReplicationResponseHeader(&out)
+	binary.Write(&out, proto.Encoding, l.p.LeaderEpoch)
+	binary.Write(&out, proto.Encoding, l.p.log.HighWatermark())
 	buf := make([]byte, 28)
 	req := f.p.log.NewestOffset()
 	if req < l.p.log.NewestOffset() && max > 0 {
 		r, err := l.p.log.NewReader(req+1, true)
 		vAssert(err == nil, "replication reader opens")
 		if err != nil {
-			return
+			return 0
 		}
-		// one response = one message set (replicator.replicate batches),
-		// appended by one AppendMessageSet call
-		var data []byte
-		first := int64(-1)
 		for i := 0; i < max && req+int64(i) < l.p.log.NewestOffset(); i++ {
-			m, off, _, _, err := r.ReadMessage(context.Background(), buf)
+			m, _, _, _, err := r.ReadMessage(context.Background(), buf)
 			vAssert(err == nil, "replication read succeeds")
 			if err != nil {
-				return
+				return 0
 			}
-			if first < 0 {
-				first = off
-			}
-			data = append(append(data, buf...), m...)
-		}
-		if !(first < f.p.log.NewestOffset()+1) {
-			_, err := f.p.log.AppendMessageSet(data)
-			vAssert(err == nil, "follower append succeeds")
+			out.Write(buf)
+			out.Write(m)
 		}
 	}
-	f.p.log.SetHighWatermark(l.p.log.HighWatermark())
+	return f.p.handleReplicationResponse(&nats.Msg{Data: out.Bytes()})
 }
 
 // VerifC02Failovers: the leader sequence a -> (b|c) -> the other -> with the
@@ -164,19 +162,31 @@ func VerifC02Failovers() {
 			}
 		}
 	}
+	var prev *vRep // the leader of the previous term
+	staleIn := uint64(vParam("stalein", 5)) // the term (by epoch) in which a late response of the deposed leader arrives; 0 = both
 	term := func(leader *vRep, followers []*vRep, epoch uint64, maxMsgs int, what string) {
 		// becomeLeader: the new leader records its epoch
 		vC02Leader = leader.p
 		leader.p.LeaderEpoch = epoch
 		vAssert(leader.p.log.NewLeaderEpoch(epoch) == nil, "new leader starts its epoch")
 		// followers (alive ones) become followers of this leader: real reconciliation
+		leader.p.isFollowing = false
 		for _, f := range followers {
 			if !f.alive {
 				continue
 			}
 			f.p.LeaderEpoch = epoch
+			f.p.isFollowing = true
 			vAssert(f.p.truncateUncommitted() == nil, "follower log reconciliation succeeds")
+			// a response of the deposed leader to a fetch that was in flight
+			// across the switch arrives late: it must be dropped
+			if prev != nil && prev != f && f == followers[0] && (staleIn == 0 || epoch == staleIn) && vChoose(2) == 1 {
+				n := vFetch(prev, f, 8)
+				vAssert(n == 0, "a replication response from a deposed leader's epoch is dropped")
+				vCover("stale-response")
+			}
 		}
+		prev = leader
 		check(leader, what+" after reconciliation")
 		n := vChoose(maxMsgs + 1) // messages appended in this term
 		for i := 0; i < n; i++ {
